@@ -4,6 +4,7 @@
 cd /verif
 for d in seeded/*/; do
   id=$(basename $d)
+  if python3 -c "import json,sys; sys.exit(0 if json.load(open('$d/meta.json')).get('obsolete') else 1)"; then echo "$id: OBSOLETE (see meta.json)"; continue; fi
   props=$(python3 -c "import json,sys; r=json.load(open('$d/meta.json'))['ran'].split(); print(' '.join(x for x in r[2:] if x.startswith('C') and len(x)==3))")
   if ! git -C /repo apply --check /verif/$d/patch.diff 2>/dev/null; then echo "$id: PATCH-DOES-NOT-APPLY"; continue; fi
   out=$(tools/seed_run.sh $id $props 2>&1)
